@@ -8,7 +8,7 @@
    and, as SPECIFICATIONS OF THE CONSUMERS, four readers: an Emacs-Lisp lexer, an RFC 4180 csv
    reader, a backslash-escape csv reader, and an XML character-data decoder.
    Characters are byte codes; a string is `str = list Z`.  Definitions only. *)
-From LedgerV Require Import Base.Prelude Gen.CsvFormat Gen.PayeeRule Gen.JoinRule.
+From LedgerV Require Import Base.Prelude Gen.CsvFormat Gen.PayeeRule Gen.JoinRule Gen.XmlWalk.
 Local Open Scope Z_scope.
 
 (* byte codes used below:  10 newline  32 space  34 dquote  35 #  38 &  39 '  40 (  41 )  44 ,  45 -  47 /
@@ -542,6 +542,24 @@ Definition put_xact (x : xact) : ptree :=
      [(k_postings, Node [] [] (map (fun p => (k_posting, put_post x p)) (x_posts x)))]).
 
 (* the <transactions> element of the document (indent level 1) *)
+(* ptree.cc format_ptree::flush: which postings of a reported transaction are written, given the
+   ones that passed the display filter (those operator() received) and all postings of the
+   transaction (all calculated, POST_EXT_VISITED, when nothing but --display filters); the rule is
+   regenerated from the source on every run (Gen/XmlWalk.v) *)
+Definition xml_walked_rule (w : xml_walk) (displayed all : list post) : list post :=
+  match w with
+  | WalkVisited => all
+  | WalkDisplayed => displayed
+  | WalkUnrecognised => []
+  end.
+Definition xml_walked (displayed all : list post) : list post := xml_walked_rule src_xml_walk displayed all.
+Definition xml_walk_name : str :=
+  match src_xml_walk with
+  | WalkVisited => [118]        (* v *)
+  | WalkDisplayed => [100]      (* d *)
+  | WalkUnrecognised => [63]    (* ? *)
+  end.
+
 Definition xml_transactions (xs : list xact) : str :=
   write_el k_transactions (Node [] [] (map (fun x => (k_transaction, put_xact x)) xs)) 1.
 
